@@ -2,6 +2,7 @@ package pongo2
 
 import (
 	"bytes"
+	"reflect"
 )
 
 type tagIfchangedNode struct {
@@ -55,7 +56,7 @@ func (node *tagIfchangedNode) Execute(ctx *ExecutionContext, writer TemplateWrit
 		changed := len(state.lastValues) == 0
 
 		for idx, oldVal := range state.lastValues {
-			if !oldVal.EqualValueTo(nowValues[idx]) {
+			if !sameWatchedValue(oldVal, nowValues[idx]) {
 				changed = true
 				break // we can stop here because ONE value changed
 			}
@@ -81,6 +82,14 @@ func (node *tagIfchangedNode) Execute(ctx *ExecutionContext, writer TemplateWrit
 	}
 
 	return nil
+}
+
+// sameWatchedValue reports whether an ifchanged-tag sees no change between two
+// evaluations of a watched expression. EqualValueTo answers "not equal" for nil and
+// for everything == cannot compare (slices, maps); those are compared deeply, so
+// that a value that stays nil or an equal list does not count as changed every time.
+func sameWatchedValue(a, b *Value) bool {
+	return a.EqualValueTo(b) || reflect.DeepEqual(a.Interface(), b.Interface())
 }
 
 func tagIfchangedParser(doc *Parser, start *Token, arguments *Parser) (INodeTag, *Error) {
